@@ -15,6 +15,7 @@ import (
 	"github.com/tetratelabs/wazero/verifharness/registry"
 	"github.com/tetratelabs/wazero/verifharness/sysdef"
 	"github.com/tetratelabs/wazero/verifharness/wasifs"
+	"github.com/tetratelabs/wazero/verifharness/wasisafe"
 )
 
 var cmds = map[string]func([]string){
@@ -37,6 +38,8 @@ var cmds = map[string]func([]string){
 	"wasifs-readdir":      wasifs.Readdir,
 	"replay-sysdef":       sysdef.Main,
 	"sysdef-child":        sysdef.Child,
+	"replay-wasisafe":     wasisafe.Main,
+	"wasisafe-child":      wasisafe.Child,
 	"fc-child":            fcache.Child,
 	"fc-replay":           fcache.ReplayProc,
 	"fc-gate":             fcache.ReplayGate,
